@@ -313,6 +313,17 @@ theorem auto_snapshot_iff (exit : Int) (enabled f d s : Bool) :
       exit = Generated.exitSuccess ∧ enabled = true ∧ f = false ∧ d = false ∧ s = false := by
   simp [autoSnapshotRuns]; constructor <;> (intro h; simp_all)
 
+/-- a run whose totals are partial for any reason — a file list, a git filter, or fail-fast
+    having skipped files (it can still pass under `--warn-only`) — never snapshots -/
+theorem partial_run_never_snapshots (exit : Int) (enabled f d s k : Bool)
+    (h : f = true ∨ d = true ∨ s = true ∨ k = true) : autoSnapshotRuns' exit enabled f d s k = false := by
+  rcases h with h | h | h | h <;> subst h <;> simp [autoSnapshotRuns', autoSnapshotRuns]
+
+theorem auto_snapshot_iff_full (exit : Int) (enabled f d s k : Bool) :
+    autoSnapshotRuns' exit enabled f d s k = true ↔
+      exit = Generated.exitSuccess ∧ enabled = true ∧ f = false ∧ d = false ∧ s = false ∧ k = false := by
+  simp [autoSnapshotRuns', autoSnapshotRuns]; constructor <;> (intro h; simp_all)
+
 /-- What remains false of the pinned code ("totals of the whole project as `stats summary`
     reports them"): the check hands over the totals of the files that pass `should_process`,
     so files matched by `content.exclude` are missing from an auto-snapshot although
